@@ -86,6 +86,9 @@ def build_corpus(tier, seed):
     deep = gen.deep_blocks(400 if tier == "quick" else 4000, seed)
     gstats["deep"] = len(deep)
     xs += deep
+    warm = gen.warm_blocks(700, 900, seed) if tier == "quick" else gen.warm_blocks(10 ** 6, 8000, seed)
+    gstats["warm"] = len(warm)
+    groups["Xwarm"] = [{"cmd": "opt", "text": t} for t in warm]
     cat = gen.rule_pattern_blocks()
     gstats["rule_catalogue_blocks"] = len(cat)
     groups["Xcat"] = [{"cmd": "opt", "text": t} for t in cat]
@@ -118,6 +121,7 @@ def plan(tier, groups, seed):
                 cmds += corpus.sample(groups["Xvoc"], 2500, seed) if i == 0 else corpus.sample(groups["Xvoc"], 300, seed + i)
                 cmds += groups["Xpair"] if i == 0 else corpus.sample(groups["Xpair"], 300, seed + i)
                 cmds += groups["Xcat"] if i < 2 else corpus.sample(groups["Xcat"], 150, seed + i)
+                cmds += corpus.sample(groups["Xwarm"], 300, seed + i)
                 cmds += groups["S"]
                 cmds += groups["R"]
             jobs.append((name, argv, [dict(c) for c in cmds]))
